@@ -81,6 +81,43 @@ def parseHdrs (s : String) : Option (List BHdr) :=
       some { cls := cls, typ := typ, name := name }
     | _ => none
 
+/-- `IsSupportedDS` from the regenerated tables. -/
+def supportedDS (d : DSRec) : Bool :=
+  SdnsVerif.Gen.C14.ds_supported_types.contains d.dt && SdnsVerif.Gen.C14.dnskey_algorithms.contains d.alg
+
+def parseRefs (s : String) : Option (Nat → Bytes) :=
+  match s.splitOn ":" with
+  | [a, b, c] => do
+    let d1 ← hexBytes a
+    let d2 ← hexBytes b
+    let d4 ← hexBytes c
+    some (fun t => if t = 1 then d1 else if t = 2 then d2 else if t = 4 then d4 else [])
+  | _ => none
+
+def parseDKeys (ks rs : String) : Option (List (DKey × (Nat → Bytes))) :=
+  if ks == "-" then some [] else
+  let kl := ks.splitOn ";"
+  let rl := rs.splitOn ";"
+  if kl.length != rl.length then none else
+  (kl.zip rl).mapM fun (k, r) => do
+    let (bk, pk) ← parseBKey k
+    let refs ← parseRefs r
+    some ({ flags := bk.flags, proto := bk.proto, alg := bk.alg, cls := bk.cls, name := bk.name, pk := pk, tag := bk.tag }, refs)
+
+def parseDSRecs (s : String) : Option (List DSRec) :=
+  if s == "-" then some [] else
+  (s.splitOn ";").mapM fun t =>
+    match t.splitOn "," with
+    | [nm, cl, tg, al, dt, dg] => do
+      let name ← hexBytes nm
+      let cls ← cl.toNat?
+      let tag ← tg.toNat?
+      let alg ← al.toNat?
+      let dtn ← dt.toNat?
+      let dig ← hexBytes dg
+      some { name := name, cls := cls, keyTag := tag, alg := alg, dt := dtn, digest := dig }
+    | _ => none
+
 def step (st : State) (w : List String) : State × String :=
   match w with
   | [_, "new"] => (st, "ok")
@@ -101,7 +138,18 @@ def step (st : State) (w : List String) : State × String :=
     | some flags, some proto, some alg, some pkb, some dtn, some wantb, some refb =>
       (st, boolStr (dsDigestMatches b64Decode (fun _ _ => refb) limit maxMat (some []) flags proto alg pkb dtn wantb))
     | _, _, _, _, _, _, _ => (st, "bad-op")
-  | "dsv" :: _ => (st, "unmodelled")
+  | ["dsv", "verify", ks, ds, rs] =>
+    match parseDKeys ks rs, parseDSRecs ds with
+    | some kr, some dl =>
+      let keys := kr.map (·.1)
+      let dmatch := fun (k : DKey) (dt : Nat) (want : Bytes) =>
+        match kr.find? (fun p => decide (p.1 = k)) with
+        | some (_, refs) =>
+          dsDigestMatches b64Decode (fun t _ => refs t) limit maxMat (some []) k.flags k.proto k.alg k.pk dt want
+        | none => false
+      let r := verifyDS supportedDS dmatch limit keys dl
+      (st, s!"unsup={boolStr r.1} ok={boolStr r.2}")
+    | _, _ => (st, "bad-op")
   | "vfy" :: _ => (st, "unmodelled")
   | ["rsa", "parse", pk] =>
     match hexBytes pk with
